@@ -30,7 +30,36 @@ def handleX86Br (args obs : List String) : Verdict :=
     | _, _ => bad "args"
   | _, _ => bad "arity"
 
-/-- `x86bool <0|1> | <bytes>` : the boolean stub as emitted -/
+/-- One step of a slightly wider instruction set than the model's, used only to *judge* stub
+    bytes the implementation emitted (never in a proof): the model's five instructions, plus
+    `mov r8, imm8` (B0+r, r < 4), `mov r32, imm32` (B8+r, zero-extending), `xor eax, eax`
+    (31 C0 / 33 C0) and `push imm8; pop rax` is not included.  Anything else is undecodable. -/
+def stepWide (m : Nat → Nat) (c : Cpu) : Option Cpu :=
+  match step m c with
+  | some c' => some c'
+  | none =>
+    let b0 := m c.rip
+    let b1 := m (c.rip + 1)
+    if 0xB0 ≤ b0 && b0 < 0xB4 then
+      let r := b0 - 0xB0
+      some { c with rip := c.rip + 2, gpr := setReg c.gpr r (c.gpr r / 256 * 256 + b1 % 256) }
+    else if 0xB8 ≤ b0 && b0 < 0xC0 then
+      let r := b0 - 0xB8
+      let imm := m (c.rip + 1) + 256 * m (c.rip + 2) + 65536 * m (c.rip + 3) + 16777216 * m (c.rip + 4)
+      some { c with rip := c.rip + 5, gpr := setReg c.gpr r imm }
+    else if (b0 == 0x31 || b0 == 0x33) && b1 == 0xC0 then
+      some { c with rip := c.rip + 2, gpr := setReg c.gpr 0 0, flags := 0x246 }
+    else none
+
+def runWide (m : Nat → Nat) : Nat → Cpu → Option Cpu
+  | 0, c => some c
+  | n+1, c => match stepWide m c with
+    | none => none
+    | some c' => if c'.rip == 0x123456789a then some c' else runWide m n c'
+
+/-- `x86bool <0|1> | <bytes>` : the boolean stub as emitted.  Judged as C10 states it: control
+    returns to the caller, the returned `bool` (`al`) is the requested value, the stack pointer
+    is popped and the callee-saved registers are unchanged. -/
 def handleX86Bool (args obs : List String) : Verdict :=
   match args, obs with
   | [v], [bh] =>
@@ -39,7 +68,6 @@ def handleX86Bool (args obs : List String) : Verdict :=
     | some bs =>
       let b := v = "1"
       let model := boolStub b
-      -- property on the implementation's bytes: run from the stub with a return address on the stack
       let base := 0x10000
       let stack := 0x800000
       let retaddr := 0x123456789a
@@ -49,13 +77,17 @@ def handleX86Bool (args obs : List String) : Verdict :=
         else 0xCC
       let c0 : Cpu := { rip := base, gpr := setReg (setReg (fun r => 0x1111 * (r + 1)) 4 stack) 0 0xdeadbeefdeadbeef,
                         xmm := fun _ => 7, flags := 0x246 }
-      let r := run m 2 c0
+      let r := runWide m 4 c0
+      let calleeSaved := [3, 5, 12, 13, 14, 15]
       let pOk := match r with
         | some c => c.rip == retaddr && c.gpr 0 % 256 == (if b then 1 else 0) && c.gpr 4 == stack + 8 &&
-                    (List.range 16).all (fun i => i == 0 || i == 4 || c.gpr i == c0.gpr i) && c.flags == c0.flags
+                    calleeSaved.all (fun i => c.gpr i == c0.gpr i)
         | none => false
-      { agree := model == bs.take 8, propOk := pOk, branch := (if b then "true" else "false"),
-        detail := if model == bs.take 8 then "" else "model=" ++ hexBytes model }
+      let full := match r with | some c => c.gpr 0 == (if b then 1 else 0) | none => false
+      { agree := model == bs.take 8, propOk := pOk,
+        branch := (if b then "true" else "false") ++ (if pOk && !full then "+upper-bits-kept" else ""),
+        detail := (if model == bs.take 8 then "" else "model=" ++ hexBytes model) ++
+                  (if pOk then "" else " key=c10.stub") }
   | _, _ => bad "arity"
 
 end Driver
